@@ -10,7 +10,8 @@ observation of the resources the property speaks about:
 Protocol (first line of a case is always `new`):
     new <wrapper> <tool> <nseq> <seqkind>     wrapper: base local clustalo muscle3 muscle5 mafft
                                               tool: ok reorder garbage_empty garbage_ragged garbage_missing
-                                                    garbage_length garbage_tree exit3 hang missing
+                                                    garbage_length garbage_tree exit3 sigkill hang
+                                                    missing isdir nulbyte
     start | join - | join t | cancel | state | tick | call <method>
 `tick` is the environment event "the external program is allowed to finish now" (the fake tools block on a gate
 file so that *when* the child exits is decided by the history, not by the scheduler).
@@ -30,8 +31,9 @@ EXT_MODULES = []
 GEN_FILES = ["BiotiteModel/Gen/C20.lean"]
 RULE = ("histories (<= 6 calls quick, <= 8 thorough) of start/join/join(timeout)/cancel/get_app_state/setters/getters "
         "+ the environment event `tick`, over 6 wrapper kinds (Application stub, LocalApp, ClustalO, MUSCLE3, MUSCLE5, "
-        "MAFFT) x 10 scripted behaviours of the external program (ok, reordered, 5 kinds of garbage, exit 3, hang, "
-        "missing binary) x protein/nucleotide/custom-alphabet inputs; half template-based (every way a run can end), "
+        "MAFFT) x 13 scripted behaviours of the external program (ok, reordered, 5 kinds of garbage, exit 3, killed by a "
+        "signal after writing valid output, hang, and three launch failures: missing binary, bin_path is a directory "
+        "[PermissionError], NUL byte in the command [ValueError, not an OSError]) x protein/nucleotide/custom-alphabet inputs; half template-based (every way a run can end), "
         "half random; the bare Application stub additionally gets all histories up to length 3 (thorough: 4), MafftApp all "
         "histories up to length 3 containing a start x every tool (thorough). "
         "non-trivial = the history contains a start; distinct = different (new line, op list)")
@@ -55,7 +57,10 @@ TECHNIQUE = "Lean 4 proof (invariant over all histories of a state machine) + re
 
 WRAPPERS = ["base", "local", "clustalo", "muscle3", "muscle5", "mafft"]
 TOOLS = ["ok", "reorder", "garbage_empty", "garbage_ragged", "garbage_missing", "garbage_length", "garbage_tree", "exit3",
-         "hang", "missing"]
+         "sigkill", "hang", "missing", "isdir", "nulbyte"]
+# tools that cannot even be launched: the exception Popen raises (only `missing`/`isdir` are OSErrors)
+LAUNCH_FAILURE = {"missing": "FileNotFoundError", "isdir": "PermissionError", "nulbyte": "ValueError"}
+FAILING_EXIT = ("exit3", "sigkill")
 SEQKINDS = ["prot", "nuc", "generic"]
 TIMEOUT = 0.05
 
@@ -358,6 +363,10 @@ class _Session:
         from biotite.application.localapp import LocalApp
         sess = self
         bin_path = os.path.join(_bin_dir(), self.tool)   # "missing" does not exist
+        if self.tool == "isdir":
+            bin_path = _bin_dir()                        # executing a directory: PermissionError
+        elif self.tool == "nulbyte":
+            bin_path = os.path.join(_bin_dir(), "ok") + "\0"   # Popen raises ValueError (embedded null byte)
         counter = {"n": 0}
         self.counter = counter
 
@@ -380,8 +389,8 @@ class _Session:
                     self._tmp = tempfile.NamedTemporaryFile("w", suffix=".stub", delete=False)
 
                 def run(self):
-                    if sess.tool == "missing":
-                        raise FileNotFoundError("missing")
+                    if sess.tool in LAUNCH_FAILURE:
+                        raise {"missing": FileNotFoundError, "isdir": PermissionError, "nulbyte": ValueError}[sess.tool](sess.tool)
                     sess.stub_child = "alive"
 
                 def is_finished(self):
@@ -391,8 +400,8 @@ class _Session:
                     return 0.001
 
                 def evaluate(self):
-                    if sess.tool == "exit3":
-                        raise subprocess.SubprocessError("exit code 3")
+                    if sess.tool in FAILING_EXIT:
+                        raise subprocess.SubprocessError("failing exit code")
                     if sess.tool.startswith("garbage"):
                         raise ValueError("unparsable")
 
@@ -789,6 +798,9 @@ def oracle(case):
             if (name == "join" and res == "ok" and wrapper not in ("base", "local")
                     and tool in ("garbage_empty", "garbage_missing", "garbage_ragged", "garbage_length")):
                 v.append((f"C20/result/garbage-accepted/{tool}", f"join() succeeded although the program's output was {tool} ({case['ops']})"))
+            if name == "join" and res == "ok" and tool in FAILING_EXIT:
+                v.append((f"C20/result/failing-exit-accepted/{tool}",
+                          f"join() succeeded although the program ended with a failing exit status ({tool}) ({case['ops']})"))
             # how runs end
             if not refused:
                 if name == "start" and res != "ok":
@@ -930,6 +942,19 @@ def cases(rng, tier):
             if quick and wrapper not in ("local", "clustalo") and rng.random() < 0.5:
                 continue
             add(_mk(f"new {wrapper} ok 3 prot", pre + ["call " + m for m in own], "methods"))
+    # launch failures of every kind, with the execution directory different from the caller's directory
+    for wrapper in ("local", "clustalo", "mafft", "base"):
+        for tool in LAUNCH_FAILURE:
+            for tail in ([], ["cancel", "start"], ["state", "join t"]):
+                add(_mk(f"new {wrapper} {tool} 3 prot", (["call set_exec_dir"] if wrapper != "base" else []) + ["start"] + tail,
+                        "launch-failure"))
+    # programs that end with a failing exit status after (possibly) writing complete output
+    for wrapper in WRAPPERS:
+        for tool in FAILING_EXIT:
+            add(_mk(f"new {wrapper} {tool} 3 prot", ["start", "tick", "join -"] + (["call get_alignment"] if wrapper not in ("base", "local") else []), "failing-exit"))
+            add(_mk(f"new {wrapper} {tool} 3 prot", ["start", "join -"], "failing-exit"))
+            if wrapper != "base":
+                add(_mk(f"new {wrapper} {tool} 3 prot", ["start", "tick", "state", "call get_exit_code", "join t", "call get_exit_code"], "failing-exit"))
     for c in _exhaustive_base(3 if quick else 4):
         if not quick or len(c["ops"]) <= 3 or rng.random() < 0.12:
             add(c)
@@ -965,6 +990,11 @@ def corpus():
         # DESIGN §8 row 26: failed launch must restore cwd, clean up, leave a terminal state
         {"kind": "regression", "ops": ["new clustalo missing 3 prot", "call set_exec_dir", "start", "cancel", "start"]},
         {"kind": "regression", "ops": ["new local missing 2 prot", "call set_exec_dir", "start"]},
+        # ... also when the launch failure is not an OSError (NUL byte in the command: ValueError) or a PermissionError
+        {"kind": "regression", "ops": ["new clustalo nulbyte 3 prot", "call set_exec_dir", "start", "cancel"]},
+        {"kind": "regression", "ops": ["new local isdir 2 prot", "call set_exec_dir", "start"]},
+        # a program killed by a signal after writing valid output has failed (negative return code)
+        {"kind": "regression", "ops": ["new muscle5 sigkill 3 prot", "start", "tick", "join -", "call get_alignment"]},
         # ... and a subclass clean_up() that raises after the failed launch must not mask the launch error (oracle-only)
         {"kind": "cleanup-raises"},
         # MAFFT clean_up
